@@ -265,3 +265,216 @@ class PairSocket(_Base):
                 self.link.queue[PairLink.other(self.side)].append('X')
         self.closed_by_us = True
         self.shutdown = True
+
+
+# ------------------------------------------------------------------------------------------
+# World: one client thread, any number of connections to named services, each served by its own
+# thread; strictly one thread runs at a time (token passing as in PairLink), exact deadlock
+# detection, virtual poll timeouts.  WorldLLC is what a real nfc.snep.SnepClient gets as `llc`:
+# nfc.llcp.Socket(llc, ...) works on it, connect(service_name) reaches the server registered
+# under that name (nfc.llcp.ConnectRefused if there is none).  Deterministic.
+class World(object):
+    def __init__(self):
+        self.cond = threading.Condition()
+        self.order = []           # thread ids in creation order ('c' first)
+        self.state = {}           # tid -> new | run | wait | wait_t | done
+        self.waitq = {}           # tid -> the deque it waits on
+        self.fn = {}
+        self.turn = None
+        self.deadlock = set()
+        self.error = {}
+        self.threads = []
+        self.services = {}        # name -> dict(serve=callable(sock), miu_cs=, miu_sc=)
+        self.connections = []     # dict(service=name, c=WorldSocket, s=WorldSocket)
+        self.actions = []         # ('connect', name) | ('refused', name) | ('close', index)
+
+    # --- scheduling (called with self.cond held) ---
+    def _runnable(self, tid):
+        st = self.state[tid]
+        return st == 'new' or (st in ('wait', 'wait_t') and len(self.waitq[tid]) > 0)
+
+    def _hand_over(self):
+        for tid in self.order:
+            if self._runnable(tid):
+                self.turn = tid
+                break
+        else:
+            for tid in self.order:
+                if self.state[tid] == 'wait_t':
+                    self.turn = tid
+                    break
+            else:
+                for tid in self.order:
+                    if self.state[tid] == 'wait':
+                        self.deadlock.add(tid)
+                        self.turn = tid
+                        break
+                else:
+                    self.turn = None
+        self.cond.notify_all()
+
+    def wait_for_message(self, tid, q, with_timeout):
+        with self.cond:
+            if q:
+                return 'data'
+            self.state[tid] = 'wait_t' if with_timeout else 'wait'
+            self.waitq[tid] = q
+            self._hand_over()
+            while self.turn != tid:
+                self.cond.wait()
+            self.state[tid] = 'run'
+            if q:
+                return 'data'
+            if tid in self.deadlock:
+                self.deadlock.discard(tid)
+                raise WouldBlockForever()
+            return 'timeout'
+
+    def _worker(self, tid):
+        with self.cond:
+            while self.turn != tid:
+                self.cond.wait()
+            self.state[tid] = 'run'
+        try:
+            self.fn[tid]()
+        except WouldBlockForever:
+            self.error[tid] = 'blocked'
+        except BaseException as e:  # noqa - reported by the caller
+            self.error[tid] = e
+        with self.cond:
+            self.state[tid] = 'done'
+            self._hand_over()
+
+    def spawn(self, tid, fn):
+        """register a thread; it starts when the token reaches it (called with or without the lock)"""
+        self.order.append(tid)
+        self.state[tid] = 'new'
+        self.fn[tid] = fn
+        th = threading.Thread(target=self._worker, args=(tid,))
+        th.daemon = True
+        self.threads.append(th)
+        th.start()
+
+    def run(self, client_fn):
+        self.spawn('c', client_fn)
+        with self.cond:
+            self.turn = 'c'
+            self.cond.notify_all()
+        for th in list(self.threads):
+            th.join()
+        for th in self.threads:       # threads spawned meanwhile
+            th.join()
+        return self.error
+
+    # --- services and connections ---
+    def register(self, name, serve, miu_cs, miu_sc):
+        self.services[name] = {'serve': serve, 'miu_cs': miu_cs, 'miu_sc': miu_sc}
+
+    def open_connection(self, name):
+        svc = self.services.get(name)
+        if svc is None:
+            self.actions.append(('refused', name))
+            raise nfc.llcp.ConnectRefused(2)
+        idx = len(self.connections)
+        cs = WorldSocket(self, 'c', svc['miu_cs'], svc['miu_sc'])
+        ss = WorldSocket(self, 's%d' % idx, svc['miu_sc'], svc['miu_cs'])
+        cs.peer, ss.peer = ss, cs
+        self.connections.append({'service': name, 'c': cs, 's': ss, 'index': idx})
+        self.actions.append(('connect', name))
+        cs.index = ss.index = idx
+        self.spawn('s%d' % idx, lambda: svc['serve'](ss))
+        return cs
+
+
+class WorldSocket(_Base):
+    def __init__(self, world, tid, send_miu, recv_miu):
+        _Base.__init__(self, send_miu, recv_miu)
+        self.world = world
+        self.tid = tid
+        self.inq = collections.deque()
+        self.peer = None
+        self.index = None
+
+    def send(self, data, flags=0):
+        data = self._check_send(data)
+        self.events.append(('send', data))
+        with self.world.cond:
+            self.peer.inq.append(data)
+        return True
+
+    def poll(self, event, timeout=None):
+        if self.shutdown:
+            raise nfc.llcp.Error(errno.ESHUTDOWN)
+        if event != 'recv':
+            return True
+        r = self.world.wait_for_message(self.tid, self.inq, timeout is not None)
+        if r == 'timeout':
+            self.events.append(('recv', 'T'))
+            return False
+        if self.inq[0] == 'X':
+            self._log_x()
+            return False
+        return True
+
+    def recv(self):
+        if self.shutdown:
+            raise nfc.llcp.Error(errno.ENOTCONN)
+        self.world.wait_for_message(self.tid, self.inq, False)
+        with self.world.cond:
+            head = self.inq.popleft()
+        if head == 'X':
+            self._log_x()
+            self.shutdown = True
+            return None
+        self.events.append(('recv', head))
+        return head
+
+    def close(self):
+        if not self.closed_by_us and not self.shutdown:
+            with self.world.cond:
+                self.peer.inq.append('X')
+            if self.tid == 'c':
+                self.world.actions.append(('close', self.index))
+        self.closed_by_us = True
+        self.shutdown = True
+
+
+class WorldLLC(object):
+    """the `llc` object of the client side: the methods nfc.llcp.Socket forwards to"""
+
+    def __init__(self, world):
+        self.world = world
+
+    class _Unconnected(object):
+        sock = None
+
+    def socket(self, sock_type):
+        return WorldLLC._Unconnected()
+
+    def connect(self, tco, address):
+        tco.sock = self.world.open_connection(address)
+
+    def setsockopt(self, tco, option, value):
+        return value
+
+    def getsockopt(self, tco, option):
+        return tco.sock.getsockopt(option)
+
+    def send(self, tco, data, flags):
+        return tco.sock.send(data, flags)
+
+    def recv(self, tco):
+        return tco.sock.recv()
+
+    def poll(self, tco, event, timeout=None):
+        return tco.sock.poll(event, timeout)
+
+    def close(self, tco):
+        if tco.sock is not None:
+            tco.sock.close()
+
+    def getpeername(self, tco):
+        return 32
+
+    def getsockname(self, tco):
+        return 33
